@@ -684,6 +684,11 @@ pub fn no_receivers<F: Fl, const KIND: u8>(cap: u64) {
     if queued {
         op_send::<F>(0, 0, 1);
     }
+    // memory-reclamation epoch announcement pending or not (state injection, see Fl::raise_epoch_signal)
+    let epoch_pending: bool = kani::any();
+    if epoch_pending {
+        F::raise_epoch_signal(w.tx[0].as_ref().unwrap());
+    }
     // second sender handle or not
     let two_senders: bool = kani::any();
     if two_senders {
@@ -705,6 +710,7 @@ pub fn no_receivers<F: Fl, const KIND: u8>(cap: u64) {
         drop(w.rx[0].take());
     }
     kani::cover!(queued && two_senders, "receivers gone with values queued and two senders");
+    kani::cover!(epoch_pending, "receivers gone while an epoch announcement is pending");
     // every sender now gets its value back as Disconnected
     ledger::declare_send(2, 0, 3);
     op_send::<F>(2, 0, 3);
@@ -765,3 +771,4 @@ life!(c13_mp_one, hk_c13_mp_one, Idle, no_receivers::<MpB, 1>(2));
 life!(c13_mp_two_handles, hk_c13_mp_two_handles, Idle, no_receivers::<MpB, 2>(2));
 life!(c13_bc_two_streams, hk_c13_bc_two_streams, Idle, no_receivers::<BcB, 3>(2));
 life!(c13_bc_two_handles, hk_c13_bc_two_handles, Idle, no_receivers::<BcB, 2>(1));
+
